@@ -40,9 +40,9 @@ fn opt_arg(t: &mut Tape) -> (Option<SortOptions>, SortOptions) {
 
 /// generated type with the known-finding shapes rewritten (not in replay mode)
 fn known(c: &mut Case, mut ty: LType) -> LType {
-    if !c.strict && avoid_single_dense_union(&mut ty) {
-        c.exclude("union-logical-nulls:single-field-dense-nonzero-id");
-    }
+    // (fixed finding union-logical-nulls: single-field dense unions with a non-zero type id are generated again)
+    let _ = &mut ty;
+    let _ = &c;
     ty
 }
 
@@ -972,10 +972,8 @@ fn grid_check(c: &mut Case, ty: LType, can_sort: bool, can_rank: bool, can_cmp: 
     c.class(format!("family:{}", ty.family()));
     let o = Some(sort_opts_of(&mut c.tape));
     let name = format!("{}", ty.arrow());
-    let ree_unsortable = matches!(&ty, LType::Ree { value, .. } if !sortable(&value.ty));
-    if ree_unsortable && !c.strict {
-        c.exclude("sort:run-end-of-unsortable-values");
-    } else {
+    // (fixed finding sort-run-end-unsortable: run-end arrays of unsortable values are judged like every other type)
+    {
         let r = no_panic("sort_to_indices", || sort_to_indices(a.as_ref(), o, None).is_ok())?;
         ensure!(r == can_sort, if can_sort { "sort_to_indices:err" } else { "sort_to_indices:unsupported-ok" }, "sort_to_indices({}) ok={} but the documented grid says {}", name, r, can_sort);
         let r = no_panic("sort", || sort(a.as_ref(), o).is_ok())?;
